@@ -2,11 +2,17 @@ package vc
 
 // propertyNotes: a note starting with "partial:" forces evidence level "other".
 var propertyNotes = map[string]string{
-	"C04": "partial: the JSON string path's escaping is proved up to two recorded findings (Go-style escapes, unescaped keys); groups, nil, []byte, logger name and the decode round trip are not decided by this check.",
-	"C05": "partial: the escaping path of logfmt (no control byte, quotes only escaped, invalid UTF-8 escaped, key before value) is proved up to one recorded finding (unescaped keys); the parse-back round trip is not decided by this check.",
+	"C04": "partial: the JSON string path's escaping is proved up to two recorded findings (Go-style escapes, unescaped keys); []byte values are quoted like strings; groups, logger name and the decode round trip are not decided by this check.",
+	"C05": "partial: the escaping path of logfmt is proved up to one recorded finding (unescaped keys): no control byte, quotes only escaped, invalid UTF-8 escaped, key before value, the exact escape segment of every rune class (what strconv.Unquote inverts), every string-like value kind of appendValue quoted; that the concatenation of the segments parses back to the whole string and the whole line to the whole record is not decided by this check.",
 	"C06": "partial: the colour on/off discipline of the record buffer is proved up to one recorded finding (raw string values in colored mode); the layout is not decided by this check.",
 	"C07": "partial: the assembly steps (sources and their order, inheritance, comparator, stable sort call, last-of-run dedupe, groups) are proved; that the printed list is the sorted permutation with the last occurrence surviving relies on the assumed behaviour of slices.SortStableFunc and is not decided by this check.",
-	"C20": "partial: totality / in-bounds of the formatter is proved for all int64 durations; the parser's digit scanners consume exactly the leading digits; the parser's agreement with time.ParseDuration on whole strings and the format/parse round trip are not decided by this check.",
+	"C20": "partial: totality / in-bounds of the formatter is proved for all int64 durations; the parser's agreement with time.ParseDuration (same value, same accept/reject, for every string in which no unit token is \"d\") is proved relationally on a lockstep product generated on every run from /repo's source and the toolchain's source, run-time panics excepted (quote's are not excluded); the format/parse round trip is NOT proved: a bounded stand-in (stated bound in coverage.bounded_standins) checks it.",
 }
 
-var propertyAssumptions = map[string][]string{}
+var propertyAssumptions = map[string][]string{
+	"C20": {
+		"the standard parser is the one of the toolchain the check runs with ($GOROOT/src/time/format.go of the default go)",
+		"lockstep product: the package-level unit tables are read through their initializer literals (that no code of either package writes them is checked syntactically on every run)",
+		"lockstep product: run-time panics are outside the comparison; float64 operations are uninterpreted but deterministic functions of their operands",
+	},
+}
